@@ -499,6 +499,18 @@ def rules_solve_update(oa):
                             ok = lo_ok and hi_ok and isinstance(t.value, ast.Name) and t.value.id == var
                     oa.add("C03-d/update-step@%s" % unp(t), "C03-d-solve-and-update", ok, why, x)
     oa.add("C03-d/update-present", "C03-d-solve-and-update", n_upd >= 1, "no per-vertex pose update found", oa.fn)
+    # poses change only through that update: no other statement of optimize() (or helper it calls) writes a pose
+    for n in oa.sweep_nodes:
+        st = cfg.stmt[n]
+        if st not in oa.sweep_loops:
+            oa.add("C03-d/no-other-pose-write@%d" % getattr(st, "lineno", 0), "C03-d-solve-and-update", False,
+                   "`%s` modifies vertex poses outside the boxplus update of the Gauss-Newton step" % unp(st)[:90], st)
+    for loop in oa.sweep_loops:
+        extra = [x for x in loop.body if not (isinstance(x, (ast.Assign, ast.AugAssign)) and oa._stores_pose(x)) and
+                 not isinstance(x, (ast.If, ast.Expr, ast.Pass, ast.Continue))]
+        for x in extra:
+            oa.add("C03-d/update-loop-extra@%d" % x.lineno, "C03-d-solve-and-update", False,
+                   "the update loop does more than update the pose: `%s`" % unp(x)[:80], x)
     # the update uses the dx of *this* iteration: the solve dominates the sweep and no sweep separates them
     dom = cfg.dominators()
     for sw in oa.sweep_nodes:
